@@ -79,9 +79,10 @@ package common
 //@ func (*GlobalConfig).IsSpecialCheck
 //@   props C17
 //@   sweep C01
+// (the goto-label check, type 9, is made in the same analysis round: it keeps the round alive too - fix 5060e5d)
 //@   ensures[gate] result <==> (g.showWarnFlag && (!has(g.IgnoreErrorTypeMap, 2) || !has(g.IgnoreErrorTypeMap, 3) || !has(g.IgnoreErrorTypeMap, 10)
-//@        || !has(g.IgnoreErrorTypeMap, 11) || !has(g.IgnoreErrorTypeMap, 12)))
-//@   loop 0 invariant rangeindex >= -1 && g.showWarnFlag && len(errTypeList) == 5 && errTypeList[0] == 2 && errTypeList[1] == 3 && errTypeList[2] == 10 && errTypeList[3] == 11 && errTypeList[4] == 12
+//@        || !has(g.IgnoreErrorTypeMap, 11) || !has(g.IgnoreErrorTypeMap, 12) || !has(g.IgnoreErrorTypeMap, 9)))
+//@   loop 0 invariant rangeindex >= -1 && g.showWarnFlag && len(errTypeList) == 6 && errTypeList[0] == 2 && errTypeList[1] == 3 && errTypeList[2] == 10 && errTypeList[3] == 11 && errTypeList[4] == 12 && errTypeList[5] == 9
 //@          && forall(k, 0, rangeindex + 1, has(g.IgnoreErrorTypeMap, errTypeList[k]))
 //@ end
 
@@ -182,7 +183,8 @@ package common
 //@ spec visible(v *VarInfo, sl int, sc int, el int, ec int) bool = locBefore(v.Loc.StartLine, v.Loc.StartColumn, sl, sc)
 //@      && inForBody(v, sl, sc, el, ec)
 //@      && (!inDeclStat(v, sl, sc, el, ec) || inInitTable(v, sl, sc, el, ec))
-//@      && (selfFunc(v) || !(inInitFunc(v, sl, sc, el, ec) || inInitName(v, sl, sc, el, ec) || inInitCall(v, sl, sc, el, ec)))
+// (the expression a local was LAST ASSIGNED - ReferExp is re-pointed by a later assignment - plays no part: `local f;
+// f = function() return f() end` sees f; until fix cbb7602 a cursor inside that expression did not)
 
 //@ func (*VarInfo).IsCorrectPosition
 //@   props C05 C06 C07 C11 C13
@@ -229,13 +231,16 @@ package common
 //@   sweep C01
 //@   requires cache != nil && cache.existMap != nil && completeVar != nil
 //@   at call InsertCompleteVar#0 before assert[not-declared-after-cursor] locBefore(locVar.Loc.StartLine, locVar.Loc.StartColumn, loc.StartLine, loc.StartColumn)
-//@   at call InsertCompleteVar#0 before assert[last-declaration-before-cursor] forall(j, index + 1, len(locInfoList.VarVec),
-//@        !locBefore(locInfoList.VarVec[j].Loc.StartLine, locInfoList.VarVec[j].Loc.StartColumn, loc.StartLine, loc.StartColumn))
+// from the property: "visible at the cursor under Lua's scoping" - the same visibility as go-to-definition (not inside
+// the declaring statement, not in the header of its for loop)
+//@   at call InsertCompleteVar#0 before assert[offered-local-is-visible-at-the-cursor] visible(locVar, loc.StartLine, loc.StartColumn, loc.EndLine, loc.EndColumn)
+//@   at call InsertCompleteVar#0 before assert[last-visible-declaration] forall(j, index + 1, len(locInfoList.VarVec),
+//@        !visible(locInfoList.VarVec[j], loc.StartLine, loc.StartColumn, loc.EndLine, loc.EndColumn))
 //@   at call InsertCompleteVar#0 before assert[inner-scope-shadows-outer] !has(cache.existMap, strName)
 //@   at call InsertCompleteVar#0 before assert[offers-the-declaration-itself] locVar == locInfoList.VarVec[index]
 //@   loop for:index>=0 invariant index >= -1 && index < len(locInfoList.VarVec) && !has(cache.existMap, strName)
 //@        && forall(j, index + 1, len(locInfoList.VarVec),
-//@            !locBefore(locInfoList.VarVec[j].Loc.StartLine, locInfoList.VarVec[j].Loc.StartColumn, loc.StartLine, loc.StartColumn))
+//@            !visible(locInfoList.VarVec[j], loc.StartLine, loc.StartColumn, loc.EndLine, loc.EndColumn))
 //@   loop for:index>=0 decreases index + 1
 // the enclosing scopes are searched next, for the same request at the same cursor: what precedes the cursor in an outer
 // scope -- also after the start of this scope -- is offered, what follows it is not
@@ -246,10 +251,10 @@ package common
 // already offered by an inner scope and has a declaration at or before the cursor IS offered (exactly once); the
 // search for the declaration stops early only when one was offered
 //@   loop range:scope.LocVarMap exits-early-only-if [every-name-of-the-scope-is-considered] false
-//@   loop for:index>=0 exits-early-only-if [search-stops-only-at-a-declaration-before-the-cursor] locBefore(locVar.Loc.StartLine, locVar.Loc.StartColumn, loc.StartLine, loc.StartColumn)
+//@   loop for:index>=0 exits-early-only-if [search-stops-only-at-a-visible-declaration] visible(locVar, loc.StartLine, loc.StartColumn, loc.EndLine, loc.EndColumn)
 //@   loop for:index>=0 invariant hits("InsertCompleteVar#0") == atentry(hits("InsertCompleteVar#0"))
 //@   loop range:scope.LocVarMap step [visible-unshadowed-name-is-offered] IsCompleteNeedShow(strName, completeVar) && !prev(has(cache.existMap, strName))
-//@        && exists(j, 0, len(locInfoList.VarVec), locBefore(locInfoList.VarVec[j].Loc.StartLine, locInfoList.VarVec[j].Loc.StartColumn, loc.StartLine, loc.StartColumn))
+//@        && exists(j, 0, len(locInfoList.VarVec), visible(locInfoList.VarVec[j], loc.StartLine, loc.StartColumn, loc.EndLine, loc.EndColumn))
 //@        ==> hits("InsertCompleteVar#0") == prev(hits("InsertCompleteVar#0")) + 1
 //@ end
 // the prefix filter: a function of the name and the request (it reads nothing else)
